@@ -80,6 +80,8 @@ impl Partition {
             return Ok(Vec::new());
         }
 
+        // Offsets below the first retained segment are gone, start from the earliest available one.
+        let start_offset = start_offset.max(self.segments[0].start_offset);
         let end_offset = self.get_end_offset(start_offset, count);
         if let Some(cached) = self.try_get_messages_from_cache(start_offset, end_offset) {
             return Ok(cached);
